@@ -78,7 +78,18 @@ func PacketID(t *tape.Tape) int32 {
 func PayloadLen(t *tape.Tape, threshold int, id int32, maxLen int) int {
 	idLen := varintLen(id)
 	n := 0
-	switch t.Pick(2, 2, 5, 3, 5, 3, 1) {
+	switch t.Pick(2, 2, 5, 3, 5, 3, 1, 2, 1) {
+	case 7:
+		// id length and payload length together around the threshold
+		// (data length = idLen + payload, the compress decision may use either)
+		if threshold > 0 {
+			n = threshold - idLen - 2 + t.Choose(5)
+		} else {
+			n = t.Choose(4)
+		}
+	case 8:
+		// powers of two and their neighbours (buffer growth steps)
+		n = 1<<uint(4+t.Choose(14)) - 2 + t.Choose(5)
 	case 0:
 		n = 0
 	case 1:
